@@ -15,7 +15,7 @@ TRUSTED = [
     "rustc's own dispatch of <T as Trait>::m, Deref, and the From impls of the runtime wrapper types (C12)",
     "hand-written model coq/model/Boxed.v of cglue/src/boxed.rs (CBox, CSliceBox: the values a box owns; Box::leak / Box::from_raw as moves), tied by running it and the real types on the same histories in harness/rt (tracking allocator, drop-logging element types)",
 ]
-ASSUMPTIONS = ["rustc code generation", "grammar = the shapes listed in coq/model/Glue.v (Pin receivers, generics, wrapped associated returns are covered by the compiled programs only)"]
+ASSUMPTIONS = ["rustc code generation", "grammar = the shapes listed in coq/model/Glue.v (plus a trait type parameter `T: Copy + 'static` written for leaf 2; Pin receivers, several type parameters, wrapped associated returns are covered by the compiled programs only)"]
 import os
 import vlib
 from checks import gencommon as G
